@@ -6,7 +6,7 @@
 # kept as /verif/seeded/<ID>-<mN>/.
 set -u
 ID=$1; M=$2
-WT=/tmp/wt-$ID; OUT=$WT/_out/$M
+WT=/tmp/${WTP:-wt}-$ID; OUT=$WT/_out/$M; TAG=${TAG:-}
 export CARGO_TARGET_DIR=$WT/target CARGO_NET_OFFLINE=true
 cd "$WT" || exit 2
 git checkout -q -- . ; rm -f examples/demo_lv.rs tests/demo_lv.rs
@@ -40,7 +40,7 @@ git checkout -q -- .
 run_demo; RC_WITHOUT=$?
 echo "demo rc with patch: $RC_WITH   without: $RC_WITHOUT"
 if [ $RC_WITH -ne 0 ] && [ $RC_WITHOUT -eq 0 ]; then
-  D=/verif/seeded/$ID-$M; mkdir -p "$D"
+  D=/verif/seeded/$ID-$TAG$M; mkdir -p "$D"
   cp "$OUT/patch.diff" "$D/"; cp "$OUT"/demo.* "$D/" 2>/dev/null
   python3 - "$OUT/meta.json" "$D/meta.json" "$ID" "$T" "$RC_WITH" "$RC_WITHOUT" <<'PY'
 import json,sys
@@ -48,7 +48,7 @@ src,dst,pid,t,a,b=sys.argv[1:]
 try: m=json.load(open(src))
 except Exception as e: m={"meta_parse_error":str(e)}
 m["property"]=pid
-m["confirmed_by_main_session"]={"scratch_worktree":"/tmp/wt-"+pid,"existing_tests_with_patch":t.strip(),"demo_exit_with_patch":int(a),"demo_exit_without_patch":int(b),
+m["confirmed_by_main_session"]={"scratch_worktree":"/tmp/wt*-"+pid,"existing_tests_with_patch":t.strip(),"demo_exit_with_patch":int(a),"demo_exit_without_patch":int(b),
   "commands":["git apply patch.diff","cargo test --workspace --offline","cargo run --offline --example demo_lv (demo.rs copied to examples/)","git checkout -- .","cargo run --offline --example demo_lv"]}
 json.dump(m,open(dst,"w"),indent=1)
 PY
